@@ -81,6 +81,10 @@ pub(crate) fn package_buildpack(
     for node in &build_order {
         let buildpack_destination_dir = buildpack_dir_resolver(&node.buildpack_id);
 
+        // The same buildpack can be packaged more than once per build (e.g. when it is referenced
+        // directly and is also a dependency of a referenced composite buildpack), so start from
+        // a clean directory like `cargo libcnb package` does.
+        let _ = fs::remove_dir_all(&buildpack_destination_dir);
         fs::create_dir_all(&buildpack_destination_dir).map_err(|error| {
             PackageBuildpackError::CannotCreateDirectory(buildpack_destination_dir.clone(), error)
         })?;
